@@ -53,6 +53,21 @@ extern "C" void a16_run()
       a16_pre_outcome(2);
     }
     delete[] part;
+    if (i >= 24 && a16_soak()) {
+      // ... and in between the process keeps reading the complete document
+      simio_set_file("/sim/doc.xml", dev, n);
+      try {
+        rkcommon::xml::XMLDoc doc = rkcommon::xml::readXML("/sim/doc.xml");
+        std::string c;
+        for (auto &ch : doc.child)
+          canon(ch, c);
+        a16_mid_outcome(0, c.c_str());
+      } catch (const std::runtime_error &e) {
+        a16_mid_outcome(1, e.what());
+      } catch (...) {
+        a16_mid_outcome(2, "");
+      }
+    }
   }
   simio_set_file("/sim/doc.xml", dev, n);
   long arg = -1;
